@@ -722,4 +722,170 @@ theorem cleanup_spec_core (s : Names) (first second : Str) (hs : s.Nodup) (hne :
     apply h
     simp [h1, h2]
 
+/-! ### repair and hydrogen addition -/
+
+theorem isExtra_false_of_mem_ref {refNames : List Str} (s : Names) {n : Str} (hr : n ∈ refNames) :
+    isExtra refNames s n = false := by
+  have : refNames.contains n = true := List.contains_iff_mem.2 hr
+  unfold isExtra
+  rw [this]; simp
+
+theorem repair_complete_core (refNames : List Str) (s : Names) (n : Str) (hn : n ∈ refNames)
+    (hh : isH n = false) (hp : isPseudo n = false) (h1 : ¬ (n = str "O1P" ∧ OP1 ∈ s)) (h2 : ¬ (n = str "O2P" ∧ OP2 ∈ s)) :
+    n ∈ (repairHeavy refNames s).1 := by
+  unfold repairHeavy
+  simp only
+  rw [List.mem_append]
+  by_cases hs : n ∈ s
+  · left
+    rw [List.mem_filter]
+    exact ⟨hs, by rw [isExtra_false_of_mem_ref s hn]; rfl⟩
+  · right
+    unfold missingHeavy
+    rw [List.mem_filter]
+    refine ⟨hn, ?_⟩
+    have c : s.contains n = false := by
+      rw [← Bool.not_eq_true, List.contains_iff_mem]; exact hs
+    have e1 : (decide (n = str "O1P") && s.contains OP1) = false := by
+      rw [← Bool.not_eq_true, Bool.and_eq_true, decide_eq_true_eq, List.contains_iff_mem]; exact h1
+    have e2 : (decide (n = str "O2P") && s.contains OP2) = false := by
+      rw [← Bool.not_eq_true, Bool.and_eq_true, decide_eq_true_eq, List.contains_iff_mem]; exact h2
+    rw [hh, hp, e1, e2, c]; rfl
+
+theorem repair_reports_core (refNames : List Str) (s : Names) (n : Str) (hn : n ∈ s) :
+    n ∈ (repairHeavy refNames s).1 ∨ n ∈ (repairHeavy refNames s).2 := by
+  unfold repairHeavy
+  simp only
+  cases he : isExtra refNames s n
+  · left
+    exact List.mem_append_left _ (List.mem_filter.2 ⟨hn, by rw [he]; rfl⟩)
+  · right
+    exact List.mem_filter.2 ⟨hn, he⟩
+
+theorem repair_keeps_known_core (refNames : List Str) (s : Names) (n : Str) (hn : n ∈ s) (hr : n ∈ refNames) :
+    n ∈ (repairHeavy refNames s).1 ∧ n ∉ (repairHeavy refNames s).2 := by
+  unfold repairHeavy
+  simp only
+  have he := isExtra_false_of_mem_ref s hr
+  refine ⟨List.mem_append_left _ (List.mem_filter.2 ⟨hn, by rw [he]; rfl⟩), fun h => ?_⟩
+  have := (List.mem_filter.1 h).2
+  rw [he] at this; cases this
+
+theorem repair_nodup_core (refNames : List Str) (s : Names) (hs : s.Nodup) (hr : refNames.Nodup) :
+    (repairHeavy refNames s).1.Nodup := by
+  unfold repairHeavy
+  simp only
+  refine List.nodup_append.2 ⟨hs.filter _, hr.filter _, ?_⟩
+  rintro a ha b hb rfl
+  have h1 : a ∈ s := (List.mem_filter.1 ha).1
+  have h2 := (List.mem_filter.1 hb).2
+  simp only [Bool.and_eq_true, Bool.not_eq_true'] at h2
+  have h3 : s.contains a = true := List.contains_iff_mem.2 h1
+  rw [h3] at h2
+  cases h2.2
+
+/-- step of the `add_hydrogens` loop -/
+abbrev hStep (skip ok : Str → Bool) : Names → Str → Names :=
+  fun acc n => if isH n && !acc.contains n && !skip n && ok n then create acc n else acc
+
+theorem addHydrogens_eq (refNames : List Str) (skip ok : Str → Bool) (s : Names) :
+    addHydrogens refNames skip ok s = refNames.foldl (hStep skip ok) s := rfl
+
+theorem hStep_mono (skip ok : Str → Bool) (acc : Names) (n : Str) :
+    ∀ m ∈ acc, m ∈ hStep skip ok acc n := by
+  intro m hm
+  unfold hStep create
+  split
+  · exact List.mem_append_left _ hm
+  · exact hm
+
+theorem hFold_mono (skip ok : Str → Bool) (L : List Str) :
+    ∀ acc : Names, ∀ m ∈ acc, m ∈ L.foldl (hStep skip ok) acc := by
+  induction L with
+  | nil => intro acc m hm; exact hm
+  | cons n L ih =>
+    intro acc m hm
+    rw [List.foldl_cons]
+    exact ih _ m (hStep_mono skip ok acc n m hm)
+
+theorem hFold_complete (skip ok : Str → Bool) (hok : ∀ n, ok n = true) (L : List Str) :
+    ∀ acc : Names, ∀ n ∈ L, isH n = true → skip n = false → n ∈ L.foldl (hStep skip ok) acc := by
+  induction L with
+  | nil => intro acc n hn; cases hn
+  | cons a L ih =>
+    intro acc n hn hh hs
+    rw [List.foldl_cons]
+    rcases List.mem_cons.1 hn with rfl | hn
+    · apply hFold_mono
+      unfold hStep create
+      by_cases hc : n ∈ acc
+      · split
+        · exact List.mem_append_left _ hc
+        · exact hc
+      · have c : acc.contains n = false := by
+          rw [← Bool.not_eq_true, List.contains_iff_mem]; exact hc
+        simp [hh, hs, hok n, hc]
+    · exact ih _ n hn hh hs
+
+theorem hFold_origin (skip ok : Str → Bool) (L : List Str) :
+    ∀ acc : Names, ∀ n ∈ L.foldl (hStep skip ok) acc,
+      n ∈ acc ∨ (n ∈ L ∧ isH n = true ∧ skip n = false) := by
+  induction L with
+  | nil => intro acc n hn; exact Or.inl hn
+  | cons a L ih =>
+    intro acc n hn
+    rw [List.foldl_cons] at hn
+    rcases ih _ n hn with h | ⟨h1, h2, h3⟩
+    · unfold hStep create at h
+      split at h
+      · rename_i hc
+        simp only [Bool.and_eq_true, Bool.not_eq_true'] at hc
+        rcases List.mem_append.1 h with h | h
+        · exact Or.inl h
+        · rw [List.mem_singleton] at h
+          subst h
+          exact Or.inr ⟨List.mem_cons_self .., hc.1.1.1, hc.1.2⟩
+      · exact Or.inl h
+    · exact Or.inr ⟨List.mem_cons_of_mem _ h1, h2, h3⟩
+
+theorem hFold_nodup (skip ok : Str → Bool) (L : List Str) :
+    ∀ acc : Names, acc.Nodup → (L.foldl (hStep skip ok) acc).Nodup := by
+  induction L with
+  | nil => intro acc h; exact h
+  | cons a L ih =>
+    intro acc hacc
+    rw [List.foldl_cons]
+    apply ih
+    unfold hStep create
+    split
+    · rename_i hc
+      simp only [Bool.and_eq_true, Bool.not_eq_true'] at hc
+      have hna : a ∉ acc := by
+        intro h
+        have := List.contains_iff_mem.2 h
+        rw [hc.1.1.2] at this; cases this
+      refine List.nodup_append.2 ⟨hacc, List.nodup_singleton _, ?_⟩
+      intro x hx y hy e
+      rw [List.mem_singleton] at hy
+      subst hy; subst e
+      exact hna hx
+    · exact hacc
+
+theorem hydrogens_complete_core (refNames : List Str) (skip ok : Str → Bool) (s : Names)
+    (hok : ∀ n, ok n = true) (n : Str) (hn : n ∈ refNames) (hh : isH n = true) (hs : skip n = false) :
+    n ∈ addHydrogens refNames skip ok s := by
+  rw [addHydrogens_eq]
+  exact hFold_complete skip ok hok refNames s n hn hh hs
+
+theorem hydrogens_only_adds_core (refNames : List Str) (skip ok : Str → Bool) (s : Names) :
+    (∀ n ∈ s, n ∈ addHydrogens refNames skip ok s) ∧
+    (∀ n ∈ addHydrogens refNames skip ok s, n ∈ s ∨ (n ∈ refNames ∧ isH n = true ∧ skip n = false)) := by
+  rw [addHydrogens_eq]
+  exact ⟨hFold_mono skip ok refNames s, hFold_origin skip ok refNames s⟩
+
+theorem hydrogens_nodup_core (refNames : List Str) (skip ok : Str → Bool) (s : Names) (hs : s.Nodup) :
+    (addHydrogens refNames skip ok s).Nodup := by
+  rw [addHydrogens_eq]
+  exact hFold_nodup skip ok refNames s hs
+
 end P2P.Proofs.Atoms
